@@ -272,6 +272,8 @@ def run_sharded(ctx, binary, testname, cwd, nshards, timeout_s, extra_env=None, 
     running = []
     crashes = []
     extra_events = []
+    hang_confirmed = [0]
+    skipped_hang_candidates = []
     base_ct = float((extra_env or {}).get("VERIF_CASE_TIMEOUT", 120))
     while pending or running:
         while pending and len(running) < parallel:
@@ -288,6 +290,8 @@ def run_sharded(ctx, binary, testname, cwd, nshards, timeout_s, extra_env=None, 
                 continue
             sh.fh.close()
             running.remove(sh)
+            if getattr(sh, "killed", False):
+                continue
             logp = sh.logs[-1]
             evs = read_events(logp)
             if any(e.get("ev") == "done" for e in evs):
@@ -308,6 +312,11 @@ def run_sharded(ctx, binary, testname, cwd, nshards, timeout_s, extra_env=None, 
                 if watchdog:
                     if late and idx not in late:
                         continue
+                    if hang_confirmed[0] >= 1:
+                        # one double-confirmed hang settles the verdict; re-running every other
+                        # late case with the long budget would take hours on a tree that hangs
+                        skipped_hang_candidates.append(idx)
+                        continue
                     finished, aevs, atail, arc = run_alone(ctx, binary, testname, cwd, extra_env, idx, base_ct * 10)
                     if finished:
                         extra_events.append({"ev": "case", "idx": idx, "verdict": "inconclusive", "gen": infl.get("gen"),
@@ -315,6 +324,7 @@ def run_sharded(ctx, binary, testname, cwd, nshards, timeout_s, extra_env=None, 
                         extra_events.extend(e for e in aevs if e.get("ev") == "case")
                     else:
                         attributed = True
+                        hang_confirmed[0] += 1
                         crashes.append({"shard": sh.idx, "rc": arc, "inflight": infl, "kind": "hang", "watchdog": True,
                                         "out_tail": atail, "input_b64": infl.get("_input_b64"),
                                         "fatal": "case exceeded %.0fs in the shard and %.0fs when run alone" % (base_ct, base_ct * 10)})
@@ -331,6 +341,17 @@ def run_sharded(ctx, binary, testname, cwd, nshards, timeout_s, extra_env=None, 
                                 "out_tail": tail, "out_head": head,
                                 "fatal": "child died with cases %s in flight; none of them dies when run alone" % [c["idx"] for c in cands]})
             sh.ncrash += 1
+            if hang_confirmed[0] >= 1:
+                # do not resume shards of a tree that hangs: the remaining cases stay unexplored
+                # (the violation is already established)
+                for other in list(running):
+                    other.killed = True
+                    try:
+                        other.proc.kill()
+                    except Exception:
+                        pass
+                pending[:] = []
+                continue
             if sh.ncrash <= max_crashes:
                 sh.from_ = max(sh.from_, min(c["idx"] for c in cands))
                 sh.skip |= set(c["idx"] for c in cands)
